@@ -140,6 +140,75 @@ def conversions(tdgl, args, tmp):
     return events
 
 
+def _history_and_forms(tdgl, sol, dev, add, np, LU, FUv, ev_ref, Jtot):
+    """(1) HISTORIES on one Solution object: every query is answered by the long-lived object `sol` (which has answered the
+    previous queries) and by a Solution freshly loaded from the file; (2) INPUT FORMS of the same points."""
+    m = lambda q: np.asarray(q.magnitude if hasattr(q, "magnitude") else q)
+    s_len = 1e-6 / LU                                     # one micrometre in length_units
+    xyA = np.array([[0.3, 0.2], [-1.0, 0.7], [2.0, -1.0]]) * s_len
+    xyB = np.array([[0.1, -0.4], [1.5, 0.9], [-2.0, 0.3]]) * s_len
+    z1, z2 = 0.5 * s_len, 1.5 * s_len
+    nsteps = len(sol.times)
+    last, mid = nsteps - 1, max(0, nsteps // 2)
+    vp = lambda S, xy, z, **kw: m(S.vector_potential_at_position(xy, zs=z, **kw))
+    fz = lambda S, xy, z, **kw: m(S.field_at_position(xy, zs=z, **kw))
+    queries = [                                            # (description, solve_step, function of the Solution)
+        ("A(xyA, z1)", last, lambda S: vp(S, xyA, z1)),
+        ("A(xyA, z2) [same xy, other height]", last, lambda S: vp(S, xyA, z2)),
+        ("A(xyA, z1) again", last, lambda S: vp(S, xyA, z1)),
+        ("A(xyB, z1) [same height, other xy]", last, lambda S: vp(S, xyB, z1)),
+        ("A(xyA, z1, units=T*m)", last, lambda S: vp(S, xyA, z1, units="T * m")),
+        ("A(xyA, z2, with_units=False)", last, lambda S: vp(S, xyA, z2, with_units=False)),
+        ("A(xyA, z1, parts)", last, lambda S: np.concatenate([m(v) for v in S.vector_potential_at_position(xyA, zs=z1, return_sum=False).values()])),
+        ("A(xyA, z2) at another solve step", mid, lambda S: vp(S, xyA, z2)),
+        ("A(xyA, z1) back at the last step", last, lambda S: vp(S, xyA, z1)),
+        ("A((m,3) form of xyA at z2)", last, lambda S: m(S.vector_potential_at_position(np.concatenate([xyA, z2 * np.ones((len(xyA), 1))], axis=1)))),
+        ("Bz(xyA, z1)", last, lambda S: fz(S, xyA, z1, vector=False)),
+        ("Bvec(xyA, z1) [scalar then vector]", last, lambda S: fz(S, xyA, z1, vector=True)),
+        ("Bz(xyA, z2) [same xy, other height]", last, lambda S: fz(S, xyA, z2, vector=False)),
+        ("Bvec(xyB, z2, units=uT)", last, lambda S: fz(S, xyB, z2, vector=True, units="uT")),
+        ("Bz(xyA, z1) at another solve step", mid, lambda S: fz(S, xyA, z1, vector=False)),
+        ("Bz(xyA, z1, with_units=False) back at the last step", last, lambda S: fz(S, xyA, z1, vector=False, with_units=False)),
+        ("A(xyA, z2) after the field queries", last, lambda S: vp(S, xyA, z2)),
+    ]
+    for n, (what, step, q) in enumerate(queries):
+        def on_history(step=step, q=q):
+            if sol.solve_step != step:
+                sol.solve_step = step
+            return q(sol)
+
+        def on_fresh(step=step, q=q):
+            fresh = tdgl.Solution.from_hdf5(sol.path)
+            fresh.solve_step = step
+            return q(fresh)
+        add("HistoryIndependent", f"query {n + 1} on one Solution object vs a freshly loaded Solution: {what}", on_history, on_fresh)
+    sol.solve_step = last
+    # ---- input forms (integer coordinates in length_units; only meaningful where 1 length unit is about the device size)
+    if abs(LU - 1e-6) < 1e-12:
+        ints = [[1, 1], [2, -1], [-2, 0]]
+        flt = np.array(ints, dtype=float)
+        for zname, zval in (("1.5", 1.5), ("0.5", 0.5), ("int 2", 2)):
+            zf = float(zval)
+            ref_v = fz(sol, flt, zf, vector=True)
+            ref_z = fz(sol, flt, zf, vector=False)
+            ref_a = vp(sol, flt, zf)
+            forms = {"list of int lists": ints, "int64 array": np.array(ints, dtype=np.int64), "int32 array": np.array(ints, dtype=np.int32),
+                     "tuple of tuples": tuple(map(tuple, ints))}
+            for fname, P in forms.items():
+                add("InputFormIndependent", f"field_at_position(vector) positions as {fname}, zs = {zname} vs float array", lambda P=P: fz(sol, P, zval, vector=True), ref_v)
+                add("InputFormIndependent", f"field_at_position(scalar) positions as {fname}, zs = {zname} vs float array", lambda P=P: fz(sol, P, zval, vector=False), ref_z)
+                add("InputFormIndependent", f"vector_potential_at_position positions as {fname}, zs = {zname} vs float array", lambda P=P: vp(sol, np.asarray(P), zval), ref_a)
+            add("InputFormIndependent", f"field_at_position zs as an array of {zname} vs scalar", lambda: fz(sol, flt, zf * np.ones(len(flt)), vector=True), ref_v)
+            add("InputFormIndependent", f"vector_potential_at_position zs as an array of {zname} vs scalar", lambda: vp(sol, flt, zf * np.ones(len(flt))), ref_a)
+            P3 = np.concatenate([flt, zf * np.ones((len(flt), 1))], axis=1)
+            add("InputFormIndependent", f"field_at_position (m,3) positions with z = {zname} vs (m,2) + zs", lambda: m(sol.field_at_position(P3, vector=True)), ref_v)
+            add("InputFormIndependent", f"field_at_position a single position [1, 1] (Python ints), zs = {zname} vs first row of the float form",
+                lambda: np.asarray(fz(sol, [1, 1], zval, vector=True)).reshape(-1), ref_v[0])
+            ev_m = np.concatenate([flt, zf * np.ones((len(flt), 1))], axis=1) * LU
+            add("MatchesDirectSum", f"field_at_position at integer positions, zs = {zname} (int-array form) vs direct Biot-Savart sum",
+                lambda: fz(sol, np.array(ints, dtype=np.int64), zval, vector=True) * FUv, ev_ref(ev_m, Jtot))
+
+
 def solved_relations(tdgl, args, tmp):
     """A tiny device solved in unit system args["u"] = [l, f, c] (exponents of ten of the length, field and current units; mixed
     prefixes allowed); returns relation observations [{name, what, a, b}] as floats, all brought to SI by the harness."""
@@ -243,6 +312,8 @@ def solved_relations(tdgl, args, tmp):
                 np.concatenate([m(A_parts[part]) * AU, m(A_parts[part]) * AU]))
         add("AppliedPlusInduced", f"vector_potential_at_position(units={un}, with_units=False): total vs independent applied + Coulomb reference",
             lambda: (lambda t: (t[:, :2] - t[0, :2]) * si)(np.asarray(sol.vector_potential_at_position(pos, units=un, with_units=False))), indep - indep[0])
+    if args.get("history", True):
+        _history_and_forms(tdgl, sol, dev, add, np, LU, FUv, ev_ref=lambda e, J: ref_biot_savart(np, e, pts, J, ar), Jtot=Js + Jn)
     if not args.get("loop", True):
         return {"rel": rel, "nsites": len(dev.mesh.sites), "frames": len(sol.times), "u": u}
     # ---- current loop: relations only (the closed form vs quadrature comparison is NOT decided by the specification)
